@@ -14,6 +14,10 @@ def main(tier, seed):
         "free-form layouts of C13 must never be classified as fixed (checked by C13's form:misdetected tag as well)",
     ]
     c13.run(ck, tier, random.Random(seed), fixed=True)
+    # "... and a free-form program is never classified as fixed form": the free-form layouts of C13
+    # (incl. flush-left files whose only free-form cue is a declaration starting in column 1)
+    c13.run(ck, tier, random.Random(seed + 1), fixed=False, scale=0.5,
+            opk_free='{"blank", "comment", "split", "eol", "case", "trail", "tcomment", "flush"}')
     return ck.finish()
 
 
